@@ -123,3 +123,32 @@ func VP_C10_Subdivide2D() {
 	vp.Assert(res2.NumSegments() == 4*len(pts), "two iterations quadruple the number of segments")
 	vp.Reach("end")
 }
+
+// VP_C06_Triangle2D: 2D Triangle SDF for symbolic corners in either
+// orientation: the sign agrees with Contains, the nearest point is at the
+// reported distance, and the reported normal is a unit vector pointing away
+// from the triangle at the nearest point (for an outside query it has a
+// non-negative component along query - nearest, for an inside query along
+// nearest - query).
+func VP_C06_Triangle2D() {
+	a, b, c := XY(0, 0), XY(vp.Float64("bx"), 0), vpCoord("c")
+	// bounded, non-degenerate triangles (NewTriangle switches to an SVD-based
+	// pseudo-inverse when |det| <= 1e-12 * |v1||v2|)
+	vp.Assume(vp.All(b.X > 0.1, b.X <= 100, c.X >= -100, c.X <= 100, c.Y >= -100, c.Y <= 100))
+	if vp.Param("cw") == 1 {
+		vp.Assume(c.Y < -0.1)
+	} else {
+		vp.Assume(c.Y > 0.1)
+	}
+	tri := NewTriangle(a, b, c)
+	q := vpCoord("q")
+	var n, p Coord
+	sdf := tri.genericSDF(q, &n, &p, nil)
+	d := q.Sub(p)
+	vp.AssertNear(d.Dot(d), sdf*sdf, 1e-9, "nearest point is at the reported distance")
+	vp.AssertNear(n.Dot(n), 1, 1e-9, "normal is a unit vector")
+	vp.Assert(vp.Implies(sdf < 0, n.Dot(d) >= 0), "outside: the normal points from the nearest point towards the query")
+	vp.Assert(vp.Implies(sdf > 0, n.Dot(d) <= 0), "inside: the normal points from the query towards the nearest point")
+	vp.Assert((sdf >= 0) == tri.Contains(q), "SDF sign agrees with Contains")
+	vp.Reach("end")
+}
